@@ -78,7 +78,8 @@ def expr_refs(ast):
     return expr_refs(ast[1]) + expr_refs(ast[2])
 
 
-def gen_graph(rng):
+def gen_graph(rng, ints=False):
+    """ints=True: integer literals and + - * only (the fragment of eval that the Coq model covers)"""
     n = rng.randrange(2, 8)
     names = rng.sample(NAMES, n)
     nodes: list[Node] = []
@@ -90,14 +91,18 @@ def gen_graph(rng):
         r = rng.random()
         if r < 0.35 or i == 0:
             v = rng.choice([rng.randrange(-9, 50), round(rng.uniform(-5, 5), 3), rng.randrange(1, 9), 0.1, 2.5e-3])
+            if ints:
+                v = rng.choice([rng.randrange(-9, 50), rng.randrange(1, 9), 0, 12345678901234567890])
             nodes.append(Node(nm, "lit", v))
             numeric.append(nm)
         elif r < 0.45:
-            nodes.append(Node(nm, "lit", rng.choice(STRS)))
+            nodes.append(Node(nm, "lit", rng.choice(STRS) if not ints else rng.randrange(-3, 4)))
+            if ints:
+                numeric.append(nm)
         elif r < 0.55:
             v = [rng.randrange(1, 9) for _ in range(rng.randrange(1, 4))]
             if rng.random() < 0.4:
-                v = [v, [0.5, 1.5]]
+                v = [v, [0.5, 1.5] if not ints else [3, -4]]
             nodes.append(Node(nm, "lit", v))
             lists.append(nm)
         elif r < 0.68 and anyv:
@@ -127,10 +132,10 @@ def gen_graph(rng):
                 if q < 0.45 or depth > 1:
                     return ("ref", rng.choice(numeric))
                 if q < 0.55:
-                    return ("num", rng.choice([1, 2, 10, 0.5]))
+                    return ("num", rng.choice([1, 2, 10, 0.5] if not ints else [1, 2, 10, 0]))
                 if q < 0.65:
                     return ("par", mk(depth + 1))
-                op = rng.choice("+-*/")
+                op = rng.choice("+-*/" if not ints else "+-*")
                 rhs = mk(depth + 1)
                 return (op, mk(depth + 1), rhs, rng.choice(["", " "]))
             ast = mk()
@@ -489,9 +494,81 @@ def run(ctx):
         ctx.count(("g", repr(c["files"])), bool(feats), "+".join(sorted(feats)) or "plain",
                   sample={"files": c["files"]} if feats and len(ctx.samples) < 4 else None)
     model_correspondence(ctx, [c for c, _ in cases])
+    read_full_correspondence(ctx, rng, [c for c, _ in cases])
     for need in ("prefix", "indexed", "unresolvable", "multi-ref", "expr-of-expr"):
         if not any(need in k for k in ctx.classes):
             raise RuntimeError(f"generator starved: no graph with feature {need}")
+
+
+MALFORMED = ['"$a +"', '"* $a"', '"($a"', '"$a $ab"', '"$a ** 2"', '"()"', '"$a (2)"', '"$a +- 3"', '"- -$a"', '"07 + $a"',
+             '"$a\t*\t2"', '" $a "', '"$a + nope"', '"$a / 2"', '"$a + 1.5"', '"$a + \'x\'"', '"$$a"', '"$a[0] + 1"', '"1 2"']
+
+
+def read_full_correspondence(ctx, rng, cases):
+    """the whole of DictReader.read on documents with references and expressions: parse, merge includes, the iterative
+    substitute-and-evaluate loop, back-insertion; model (Eval.read_full) vs implementation, data + tables + counter.
+    The model evaluates integer arithmetic only and answers "outside" elsewhere (counted, not compared)."""
+    import shutil
+
+    from harness.props import c07
+    dictIO = native.dictio()
+    docs = list(cases[:ctx.n(150, 3000)])
+    for i in range(ctx.n(350, 9000)):
+        nodes, feats = gen_graph(rng, ints=True)
+        if "ZERODIV" in expected_values(nodes)[0].values() or not lexable(nodes):
+            continue
+        c = mk_case(rng, nodes)
+        if rng.random() < 0.25:
+            # a malformed / out-of-fragment expression next to the well-formed ones
+            nm = rng.choice([x.name for x in nodes])
+            c = {"nodes": c["nodes"], "files": dict(c["files"])}
+            c["files"]["root"] += f"odd{i}  {rng.choice(MALFORMED).replace('$a', '$' + nm)};\n"
+        docs.append(c)
+        r = oracle(c) if "odd" not in c["files"]["root"] else None
+        if r:
+            ctx.oracle_fail(c, r[0], r[1])
+        ctx.count(("gi", repr(c["files"])), bool(feats), "int:" + ("+".join(sorted(feats)) or "plain"))
+    tmp = native.scratch_dir("c05f_")
+    try:
+        mlines, ilines, kept = [], [], []
+        for c in docs:
+            for p in list(tmp.rglob("*")):
+                if p.is_file():
+                    p.unlink()
+            parts = []
+            for rel, text in c["files"].items():
+                p = tmp / rel
+                p.parent.mkdir(parents=True, exist_ok=True)
+                p.write_text(text)
+                if rel.endswith(".json"):
+                    parts.append(f"{wire.enc_str(str(p))} json {wire.enc_tree(json.loads(text))}")
+                else:
+                    parts.append(f"{wire.enc_str(str(p))} native {wire.enc_str(text)}")
+            mlines.append(f"read_full l{len(parts)} " + " ".join(parts) + f" {wire.enc_str(str(tmp / 'root'))} b1 i-1")
+            native.set_counter(-1)
+            try:
+                r = dictIO.DictReader.read(tmp / "root")
+                ilines.append("ok " + c07.enc_sdict_obj(r) + f" i{native.counter_value()}")
+            except (ValueError, TypeError, IndexError, KeyError, RecursionError) as e:
+                ilines.append(f"raise {native.ERRCODE[type(e).__name__]}")
+            except Exception as e:  # noqa: BLE001
+                ilines.append("raise-other " + type(e).__name__)
+            kept.append(c)
+        mout = wire.run_model_sharded(mlines)
+        inside = 0
+        for c, ml, il in zip(kept, mout, ilines):
+            if ml == "outside":
+                ctx.classes["read_full:outside the modelled fragment of eval"] += 1
+                continue
+            inside += 1
+            ctx.corr_compared += 1
+            if wire.canon_floats(ml) != wire.canon_floats(il) and len(ctx.disagreements) < 30:
+                ctx.disagree("read_full (parse + includes + expression loop)", c, ml[:3000], il[:3000])
+        ctx.classes["read_full:compared"] += inside
+        if inside < len(kept) // 4:
+            raise RuntimeError("generator starved: too few documents inside the modelled fragment of eval")
+    finally:
+        shutil.rmtree(tmp, ignore_errors=True)
 
 
 def model_correspondence(ctx, cases):
